@@ -184,6 +184,66 @@ class GetVarlist(Contract):
 CONTRACTS += [GetVarlist(p, h) for p in GetVarlist.PATTERNS for h in (True, False)]
 
 
+class Add2Varlist(Contract):
+    """_add2Varlist(new names) on a file whose VAR-LIST already names data variables -- one of them with a full-width
+    (16 character) name, so that the stored text has no blank between two names; sizes arbitrary: afterwards NVARS is the
+    number of listed variables that exist, every new IOAPI variable is appended exactly once (16 characters), variables
+    that do not exist or are not IOAPI data variables are not added, nothing already listed is duplicated."""
+    prop = 'C10'
+    target = IO + '::ioapi_base._add2Varlist'
+    max_paths = 40
+
+    CASES = {
+        'one new variable after a 16-character name': (['O3', 'A234567890123456'], ['NEW'], ['O3', 'A234567890123456', 'NEW']),
+        '16-character name followed by another listed name': (['A234567890123456', 'O3'], ['NEW'], ['A234567890123456', 'O3', 'NEW']),
+        'already listed name offered again': (['O3', 'A234567890123456'], ['A234567890123456', 'O3'], ['O3', 'A234567890123456']),
+        'new 16-character name': (['O3'], ['B234567890123456', 'NEW'], ['O3', 'B234567890123456', 'NEW']),
+        'a 2-d variable and a missing variable are not added': (['O3'], ['LAT', 'GHOST', 'NEW'], ['O3', 'NEW']),
+        'time flags are never listed': (['O3'], ['TFLAG', 'NEW'], ['O3', 'NEW']),
+    }
+
+    def __init__(self, case):
+        self.case = case
+        self.listed, self.offered, self.want = self.CASES[case]
+        self.name = '_add2Varlist[%s]' % case
+
+    def inputs(self, ctx, I):
+        from pyvc import frontend
+        ctx.modstate[(IO, '_ioapi_defaults')] = {}
+        n = {d: ctx.fresh('n_' + d) for d in ('TSTEP', 'LAY', 'ROW', 'COL')}
+        self.n = n
+        dims = {d: dim_obj(I, d, x) for d, x in n.items()}
+        dims['DATE-TIME'] = dim_obj(I, 'DATE-TIME', 2)
+        dims['VAR'] = dim_obj(I, 'VAR', len(self.listed))
+        mod = frontend.load('core/_variables.py')
+        cls = I.classref(mod, mod.find('PseudoNetCDFVariable')[0])
+
+        def var(name, vd):
+            a = sym_array('v_' + name[:6], tuple(n.get(d, 2 if d == 'DATE-TIME' else len(self.listed)) for d in vd), 'f')
+            a.cls = cls
+            a.attrs.update(dimensions=vd, _ncattrs=())
+            return a
+        std = ('TSTEP', 'LAY', 'ROW', 'COL')
+        vs = dict(TFLAG=var('TFLAG', ('TSTEP', 'VAR', 'DATE-TIME')), LAT=var('LAT', ('ROW', 'COL')))
+        for k in set(self.listed + [x for x in self.offered if x not in ('LAT', 'GHOST', 'TFLAG')]):
+            vs[k] = var(k, std)
+        f = pnc_file(I, dimensions=dims, variables=vs, attrs={'NVARS': ctx.fresh('old_NVARS'), 'VAR-LIST': ''.join(k.ljust(16) for k in self.listed)},
+                     relpath=IO, clsname='ioapi_base')
+        return dict(self=f, varkeys=list(self.offered))
+
+    def requires(self, inp):
+        return And(*[ge(x, 1) for x in self.n.values()])
+
+    def ensures(self, inp, res, I):
+        a = inp['self'].attrs
+        return [('VAR-LIST = the listed names, each once, 16 characters each', a.get('VAR-LIST') == ''.join(k.ljust(16) for k in self.want)),
+                ('NVARS = number of listed variables', eq(a.get('NVARS'), len(self.want))),
+                ('returns the listed names', list(res) == self.want if isinstance(res, list) else False)]
+
+
+CONTRACTS += [Add2Varlist(c) for c in Add2Varlist.CASES]
+
+
 class UpdateTflag(Contract):
     """updatetflag(overwrite=True) on a file with SDATE / STIME / TSTEP attributes, ARBITRARY numbers of steps and of
     variables: the regenerated TFLAG has shape (steps, NVARS, 2); for every step t and every variable column v the pair
@@ -510,7 +570,9 @@ def bounded(tier, seed):
     try:
         sources = [('gridded from arrays', lambda: IO.make_ioapi(P, seed=seed)),
                    ('boundary from arrays', lambda: IO.make_ioapi(P, boundary=True, seed=seed)),
-                   ('daily steps', lambda: IO.make_ioapi(P, tstep=240000, sdate=2020059, stime=0, seed=seed))]
+                   ('daily steps', lambda: IO.make_ioapi(P, tstep=240000, sdate=2020059, stime=0, seed=seed)),
+                   # a full-width (16 character) variable name: VAR-LIST has no blank between it and the next name
+                   ('16-character variable name', lambda: IO.make_ioapi(P, seed=seed, names=['V0', 'A234567890123456', 'V2']))]
 
         def from_disk():
             f = IO.make_ioapi(P, seed=seed)
